@@ -9,6 +9,7 @@ CONSTANTS
   Tos = {"victimBare", "victimFull", "domain", "absent"}
   Stanzas <- McStanzas
   MaxPending = 2
+  MaxRetry = 0
   MaxHist = 99
 INVARIANTS TypeOK BindOnlyAuthed AuthedOnlyApproved ApprovedSound NeverTheVictim RoutesOwn
 PROPERTIES IdentityByApproval AnswersOnlyAuthed RoutedStamped
